@@ -362,7 +362,51 @@ pub fn extra_universe() -> Universe {
     let rep16 = add(def("RepU16", DeepAttr, &["u16"], vec![], Body::Enum(vec![("Lo".into(), Fields::Unit), ("Hi".into(), Fields::Tuple(vec![Ty::vec(p(U32))])), ("Mid".into(), Fields::Tuple(vec![p(U8), p(U8)]))])));
     let rep32 = add(def("RepCU32", DeepPlain, &["C, u32"], vec![], Body::Enum(vec![("X".into(), Fields::Tuple(vec![p(U16)])), ("Y".into(), named(&[("v", Ty::String)])), ("Z".into(), Fields::Unit)])));
 
+    // identifiers outside ASCII, and names that are prefixes of each other
+    let uni_s = add(def("Größe", DeepPlain, &[], vec![tparam("A", &[])], Body::Struct(named(&[("länge", p(U32)), ("名前", Ty::String), ("données", Ty::Param(0)), ("a", p(U8)), ("ab", p(U8)), ("abc", Ty::vec(p(U16)))]))));
+    let uni_e = add(def("Époque", DeepAttr, &[], vec![], Body::Enum(vec![("Été".into(), Fields::Tuple(vec![p(U16)])), ("Hiver".into(), named(&[("größe", Ty::vec(p(U8)))])), ("Éténdue".into(), Fields::Unit)])));
+    let uni_z = add(def("Zäh", Zero, &["C"], vec![], Body::Struct(named(&[("ä", p(U16)), ("äö", p(U64))]))));
+    // more than 64 fields
+    let many: Vec<(String, Ty)> = (0..70).map(|i| (format!("f{}", i), match i % 5 { 0 => p(U8), 1 => p(U64), 2 => Ty::String, 3 => Ty::vec(p(U16)), _ => Ty::opt(p(U32)) })).collect();
+    let many_d = add(def("Many70", DeepPlain, &[], vec![], Body::Struct(Fields::Named(many))));
+    let manyz: Vec<(String, Ty)> = (0..70).map(|i| (format!("z{}", i), match i % 4 { 0 => p(U8), 1 => p(U64), 2 => p(U16), _ => Ty::arr(p(U8), 3) })).collect();
+    let many_z = add(def("ManyZ70", Zero, &["C"], vec![], Body::Struct(Fields::Named(manyz))));
+    // a zero-copy structure with a field at an offset beyond 2^16
+    let far_z = add(def("FarZ", Zero, &["C"], vec![], Body::Struct(named(&[("head", p(U8)), ("bulk", Ty::arr(p(U8), 66_000)), ("tail", p(U32)), ("end", p(U16))]))));
+
+    // type names of several kilobytes made of multi-byte characters: any byte offset at which somebody cuts such a
+    // name (64, 1024, 4096, ...) falls inside a character for most of the four variants (shifted by 0..3 bytes)
+    let cjk: String = "統一資料構造体型名識別子試験用定義記号列長文字種類別".chars().cycle().take(60).collect();
+    let cjk_defs: Vec<usize> = ["", "A", "AB", "ABC"]
+        .iter()
+        .map(|pre| add(def(&format!("{}{}", pre, cjk), DeepPlain, &[], vec![tparam("T", &[])], Body::Struct(named(&[("値", Ty::Param(0))])))))
+        .collect();
+    // explicit discriminants (the format's tag stays the position of the variant)
+    let disc = add(def("Disc", DeepPlain, &[], vec![], Body::Enum(vec![("Low = 1".into(), Fields::Unit), ("Mid".into(), Fields::Unit), ("High = 7".into(), Fields::Unit), ("Top".into(), Fields::Unit)])));
+    let disc_r = add(def("DiscR", DeepAttr, &["u8"], vec![tparam("A", &[])], Body::Enum(vec![("Ping = 2".into(), Fields::Unit), ("Data".into(), Fields::Tuple(vec![Ty::Param(0), p(U32)])), ("Text".into(), named(&[("s", Ty::String)])), ("Pong = 9".into(), Fields::Unit)])));
+    // field names that generated code is likely to use for its own locals
+    let hyg = add(def("Hyg", DeepPlain, &[], vec![tparam("A", &[])], Body::Enum(vec![("S".into(), named(&[("tag", p(U8)), ("payload", p(U32)), ("res", Ty::Param(0)), ("hasher", p(U16))])), ("T".into(), named(&[("offset_of", Ty::String), ("len", p(U8)), ("data", Ty::vec(p(U8)))])), ("U".into(), Fields::Named(vec![]))])));
+
     let mut s: Vec<Ty> = vec![];
+    for d0 in &cjk_defs {
+        let mut t = Ty::vec(p(U8));
+        for _ in 0..24 {
+            t = Ty::adt(cjk_defs[0], vec![a(t)]);
+        }
+        s.push(Ty::adt(*d0, vec![a(t)]));
+    }
+    s.extend([Ty::adt(disc, vec![]), Ty::vec(Ty::adt(disc, vec![])), Ty::adt(disc_r, vec![a(Ty::vec(p(U64)))]), Ty::vec(Ty::adt(disc_r, vec![a(p(U8))]))]);
+    s.extend([Ty::adt(hyg, vec![a(Ty::vec(p(U32)))]), Ty::vec(Ty::adt(hyg, vec![a(p(U8))]))]);
+    s.extend([Ty::adt(uni_s, vec![a(Ty::vec(p(U64)))]), Ty::vec(Ty::adt(uni_s, vec![a(Ty::adt(uni_z, vec![]))])), Ty::adt(uni_e, vec![]), Ty::vec(Ty::adt(uni_e, vec![])), Ty::vec(Ty::adt(uni_z, vec![])), Ty::adt(uni_z, vec![])]);
+    s.extend([Ty::adt(many_d, vec![]), Ty::adt(many_z, vec![]), Ty::vec(Ty::adt(many_z, vec![])), Ty::adt(far_z, vec![]), Ty::adt(g1, vec![a(Ty::vec(Ty::adt(far_z, vec![])))])]);
+    // nesting deeper than 32 levels
+    {
+        let mut t = p(U8);
+        for k in 0..36 {
+            t = if k % 3 == 2 { Ty::vec(t) } else { Ty::opt(t) };
+        }
+        s.push(t);
+    }
     s.extend([Ty::adt(wide_e, vec![]), Ty::vec(Ty::adt(wide_e, vec![])), Ty::opt(Ty::adt(wide_e, vec![]))]);
     s.extend([Ty::adt(rep8, vec![a(Ty::vec(p(U64)))]), Ty::adt(rep8, vec![a(p(U8))]), Ty::vec(Ty::adt(rep8, vec![a(Ty::String)])), Ty::adt(rep16, vec![]), Ty::vec(Ty::adt(rep16, vec![])), Ty::adt(rep32, vec![]), Ty::adt(g1, vec![a(Ty::adt(rep32, vec![]))])]);
     // packed zero-copy structures: the size is not a multiple of the alignment unit
